@@ -52,7 +52,8 @@ TGet == /\ IsEvent("get") /\ UNCHANGED <<objs, fps>>
            IF ~Live(h) \/ ~KeyOk(Ev.k) THEN Check(~Ok(Ev.rc), [refused |-> TRUE])
            ELSE LET o == objs[h]  i == Find(o, NormGV(Ev.g), Ev.k[1]) IN
                 IF Ev.T # "String"      \* typed interpretation is C09's business: here only "no effect, documented code"
-                THEN Check(IF i = 0 THEN Ev.rc = "ECONF_NOKEY" ELSE TRUE, [rc |-> "ECONF_NOKEY"])
+                THEN Check(IF i = 0 THEN Ev.rc = "ECONF_NOKEY" /\ (Ev.isdef => Ev.outs = Ev.defs) ELSE TRUE,
+                           [rc |-> "ECONF_NOKEY", out |-> IF Ev.isdef THEN Ev.defs ELSE "-"])
                 ELSE IF i = 0
                 THEN Check(Ev.rc = "ECONF_NOKEY" /\ (Ev.isdef => NormOut(Ev.out) = NormOut(Ev.def)), [rc |-> "ECONF_NOKEY", out |-> Ev.def])
                 ELSE Check(Ok(Ev.rc) /\ NormOut(Ev.out) = NormOut(ValueAt(o, i)), [rc |-> "ECONF_SUCCESS", out |-> ValueAt(o, i)])
